@@ -42,6 +42,11 @@ reaches the registry -/
 theorem refused_before_registry : update_encodes_before_registry = true ∧ register_encodes_before_registry = true := by
   simp [update_encodes_before_registry, register_encodes_before_registry]
 
+/-- leaving `async with AsyncZeroconf()` / `with Zeroconf()` goes through the public close calls (which say goodbye first), and
+`async_unregister_service` defaults a missing `server` before it reads `server_key` -/
+theorem context_exit_closes : aexit_calls_async_close = true ∧ exit_calls_close = true ∧ unregister_sets_server = true := by
+  simp [aexit_calls_async_close, exit_calls_close, unregister_sets_server]
+
 /-- `async_send` sends nothing once `done` -/
 theorem send_is_noop_eq (d : Bool) : send_is_noop d = d := by simp [send_is_noop]
 
@@ -50,5 +55,21 @@ theorem goodbye_addresses_eq (shared : Bool) : goodbye_addresses shared = !share
 
 /-- goodbyes are 125 ms apart -/
 theorem unregisterTime_eq : unregisterTime = 125 := by decide
+
+/-- **the loops that send goodbyes** (since D27: `_async_send_repeatedly` for `async_unregister_service`, the loop of
+`async_unregister_all_services` for a close / unregister-all): same range, same "sleep before every transmission but the first", same
+interval as the parameters the model's goodbye task and close sequence are written with (`broadcast_count` — the range of
+`_async_broadcast_service` — and `unregisterTime`).  So the 3 and the 125 of the goodbye theorems are read off the code that sends goodbyes. -/
+theorem goodbye_loops :
+    goodbye_count = broadcast_count ∧ goodbye_all_count = broadcast_count ∧
+    (∀ i, goodbye_sleeps i = broadcast_sleeps i) ∧ (∀ i, goodbye_all_sleeps i = broadcast_sleeps i) ∧
+    goodbye_interval = unregisterTime ∧ goodbye_all_interval = unregisterTime := by
+  refine ⟨by simp [goodbye_count, broadcast_count], by simp [goodbye_all_count, broadcast_count], ?_, ?_, by decide, by decide⟩
+  · intro i; simp [goodbye_sleeps, broadcast_sleeps]
+  · intro i; simp [goodbye_all_sleeps, broadcast_sleeps]
+
+/-- three goodbyes, 125 ms apart, in both loops -/
+theorem goodbye_loops_eq : goodbye_count = 3 ∧ goodbye_all_count = 3 ∧ goodbye_interval = 125 ∧ goodbye_all_interval = 125 := by
+  refine ⟨by simp [goodbye_count], by simp [goodbye_all_count], by decide, by decide⟩
 
 end Zc.GenFacts.Goodbye
